@@ -94,16 +94,32 @@ func unitClass(u string) string {
 	return "unknown"
 }
 
+// isMathFn: css-values-4 math functions; inside them a bare 0 is a <number>, never a <length>,
+// and whitespace around + and - is significant.
 func isMathFn(name string) bool {
 	switch name {
-	case "calc", "min", "max", "clamp", "-webkit-calc", "-moz-calc":
+	case "calc", "min", "max", "clamp", "-webkit-calc", "-moz-calc",
+		"round", "mod", "rem", "sin", "cos", "tan", "asin", "acos", "atan", "atan2", "pow", "sqrt", "hypot", "log", "exp", "abs", "sign":
 		return true
 	}
 	return false
 }
 
+// legacyZeroAngleFn: functions whose grammar accepts a unitless zero for an <angle>
+// (css-transforms-1 rotate()/skew*(), css-images-4 gradients "<angle> | <zero>", filter-effects hue-rotate()).
+func legacyZeroAngleFn(name string) bool {
+	switch name {
+	case "rotate", "rotatex", "rotatey", "rotatez", "rotate3d", "skew", "skewx", "skewy", "hue-rotate":
+		return true
+	}
+	return strings.HasSuffix(name, "-gradient")
+}
+
 // numAtom: zeroLen says whether a zero <length> may be written without unit at this position.
-func numAtom(n *Node, zeroLen bool, ctx *Ctx) Atom {
+func numAtom(n *Node, zeroLen bool, ctx *Ctx) Atom { return numAtomA(n, zeroLen, false, ctx) }
+
+// zeroAngle: a zero <angle> may be written without unit here even under the strict reading.
+func numAtomA(n *Node, zeroLen bool, zeroAngle bool, ctx *Ctx) Atom {
 	t := n.T
 	if t.Num == nil {
 		return Atom{K: 'x', S: strings.ToLower(t.Raw), Nd: n}
@@ -115,7 +131,7 @@ func numAtom(n *Node, zeroLen bool, ctx *Ctx) Atom {
 	case KDimension:
 		a.U = strings.ToLower(t.Val)
 		if zeroLen && t.Num.Sign() == 0 {
-			if lengthUnits[a.U] || (!ctx.Strict && angleUnits[a.U]) {
+			if lengthUnits[a.U] || ((!ctx.Strict || zeroAngle) && angleUnits[a.U]) {
 				a.U = ""
 			}
 		}
@@ -127,6 +143,10 @@ func numAtom(n *Node, zeroLen bool, ctx *Ctx) Atom {
 // top: declaration top level (zero lengths may drop the unit, as css-values allows for <length>).
 // math: inside calc()-like functions whitespace next to + and - is significant.
 func genericAtoms(ns []Node, top bool, math bool, zeroLen bool, ctx *Ctx) []Atom {
+	return genericAtomsA(ns, top, math, zeroLen, false, ctx)
+}
+
+func genericAtomsA(ns []Node, top bool, math bool, zeroLen bool, zeroAngle bool, ctx *Ctx) []Atom {
 	out := make([]Atom, 0, len(ns))
 	pendingWS := false
 	for i := range ns {
@@ -141,7 +161,11 @@ func genericAtoms(ns []Node, top bool, math bool, zeroLen bool, ctx *Ctx) []Atom
 			out = append(out, Atom{K: 'w'})
 		}
 		pendingWS = false
-		out = append(out, nodeAtom(n, top, math, zeroLen, ctx))
+		if k := n.T.K; (k == KDimension) && zeroAngle {
+			out = append(out, numAtomA(n, zeroLen, true, ctx))
+		} else {
+			out = append(out, nodeAtom(n, top, math, zeroLen, ctx))
+		}
 	}
 	return out
 }
@@ -150,7 +174,7 @@ func nodeAtom(n *Node, top bool, math bool, zeroLen bool, ctx *Ctx) Atom {
 	t := n.T
 	switch t.K {
 	case KNumber, KPercentage, KDimension:
-		return numAtom(n, top && zeroLen, ctx)
+		return numAtom(n, zeroLen, ctx)
 	case KIdent:
 		return Atom{K: 'i', S: t.Val, Nd: n}
 	case KHash:
@@ -182,9 +206,12 @@ func nodeAtom(n *Node, top bool, math bool, zeroLen bool, ctx *Ctx) Atom {
 		if c, ok := colorOf(*n); ok {
 			return Atom{K: 'c', C: c, Nd: n}
 		}
-		return Atom{K: 'f', S: name, Kids: genericAtoms(n.Kids, false, isMathFn(name), false, ctx), Nd: n, Closed: n.Closed}
+		// inside an ordinary function a zero <length> may drop its unit like anywhere else; inside
+		// math functions it may not
+		mf := isMathFn(name)
+		return Atom{K: 'f', S: name, Kids: genericAtomsA(n.Kids, false, mf, !mf && name != "var" && name != "env" && name != "attr", legacyZeroAngleFn(name), ctx), Nd: n, Closed: n.Closed}
 	case KLParen:
-		return Atom{K: 'b', S: "(", Kids: genericAtoms(n.Kids, false, math, false, ctx), Nd: n, Closed: n.Closed}
+		return Atom{K: 'b', S: "(", Kids: genericAtoms(n.Kids, false, math, zeroLen && !math, ctx), Nd: n, Closed: n.Closed}
 	case KLBracket:
 		return Atom{K: 'b', S: "[", Kids: genericAtoms(n.Kids, false, false, false, ctx), Nd: n, Closed: n.Closed}
 	case KLBrace:
@@ -304,13 +331,13 @@ func atomsEq(in, out []Atom, ctx *Ctx) (int, string) {
 	}
 	for i := 0; i < n; i++ {
 		if why := atomEq(in[i], out[i], ctx); why != "" {
-			if why == "tokens-changed" {
+			if len(in) > len(out) {
 				if f := fusionAt(in, out, i); f != "" {
 					return i, f
 				}
-				if in[i].K == 'w' || out[i].K == 'w' {
-					return i, "whitespace:significant-changed"
-				}
+			}
+			if why == "tokens-changed" && (in[i].K == 'w' || out[i].K == 'w') {
+				return i, "whitespace:significant-changed"
 			}
 			if in[i].Lbl != "" {
 				return i, in[i].Lbl + why
@@ -347,8 +374,8 @@ func fusionAt(in, out []Atom, i int) string {
 		if in[j].K == 'w' && j+1 < len(in) {
 			j++
 		}
-		a, b := atomRaw(in[i]), atomRaw(in[j])
-		o := atomRaw(out[i])
+		a, b := atomRawNC(in[i]), atomRawNC(in[j])
+		o := atomRawNC(out[i])
 		if o != "" && (a+b == o || strings.HasPrefix(o, a+b)) {
 			return "fusion:" + kindWord(in[i]) + "+" + kindWord(in[j])
 		}
@@ -442,4 +469,14 @@ func hasSubstitution(ns []Node) bool {
 		}
 	}
 	return false
+}
+
+func atomRawNC(a Atom) string {
+	if a.K == 'w' {
+		return " "
+	}
+	if a.Nd != nil {
+		return nodesRawNC([]Node{*a.Nd})
+	}
+	return a.S
 }
